@@ -772,6 +772,11 @@ func writeFieldBodyCount(name string, typ FieldType, w io.Writer, settings Gener
 			writeLineWithTabs(w, "bodyLen += len(%ASGN) * "+strconv.Itoa(int(sz)), depth, name)
 			return
 		}
+		if sz, ok := settings.enumSizes[typ.Array.Simple]; ok {
+			// enums are fixed-size too (the loop below would leave elem unused)
+			writeLineWithTabs(w, "bodyLen += len(%ASGN) * "+strconv.Itoa(int(sz)), depth, name)
+			return
+		}
 		writeLineWithTabs(w, "for _, elem := range %ASGN {", depth, name)
 		writeFieldBodyCount("elem", *typ.Array, w, settings, depth+1)
 		writeLineWithTabs(w, "}", depth)
